@@ -61,6 +61,9 @@ Codec/VarintProofs.vos Codec/VarintProofs.vok Codec/VarintProofs.required_vos: C
 Compiler/Accounting.vo Compiler/Accounting.glob Compiler/Accounting.v.beautified Compiler/Accounting.required_vo: Compiler/Accounting.v Gen/AstBuilderArms.vo
 Compiler/Accounting.vio: Compiler/Accounting.v Gen/AstBuilderArms.vio
 Compiler/Accounting.vos Compiler/Accounting.vok Compiler/Accounting.required_vos: Compiler/Accounting.v Gen/AstBuilderArms.vos
+Compiler/AccountingC06.vo Compiler/AccountingC06.glob Compiler/AccountingC06.v.beautified Compiler/AccountingC06.required_vo: Compiler/AccountingC06.v Gen/AstBuilderArms.vo Compiler/Accounting.vo Compiler/AccountingProofs.vo
+Compiler/AccountingC06.vio: Compiler/AccountingC06.v Gen/AstBuilderArms.vio Compiler/Accounting.vio Compiler/AccountingProofs.vio
+Compiler/AccountingC06.vos Compiler/AccountingC06.vok Compiler/AccountingC06.required_vos: Compiler/AccountingC06.v Gen/AstBuilderArms.vos Compiler/Accounting.vos Compiler/AccountingProofs.vos
 Compiler/AccountingProofs.vo Compiler/AccountingProofs.glob Compiler/AccountingProofs.v.beautified Compiler/AccountingProofs.required_vo: Compiler/AccountingProofs.v Gen/AstBuilderArms.vo Compiler/Accounting.vo
 Compiler/AccountingProofs.vio: Compiler/AccountingProofs.v Gen/AstBuilderArms.vio Compiler/Accounting.vio
 Compiler/AccountingProofs.vos Compiler/AccountingProofs.vok Compiler/AccountingProofs.required_vos: Compiler/AccountingProofs.v Gen/AstBuilderArms.vos Compiler/Accounting.vos
